@@ -34,7 +34,7 @@
 
 use self::errors::*;
 use crate::temporal::ym_duration::FeelYearsAndMonthsDuration;
-use crate::temporal::{after, after_or_equal, before, before_or_equal, between, equal, weekday, FeelDateTime, FeelTime};
+use crate::temporal::{weekday, FeelDateTime, FeelTime};
 use crate::FeelNumber;
 use chrono::{DateTime, Datelike, FixedOffset, Local};
 use dmntk_common::DmntkError;
@@ -112,20 +112,8 @@ impl PartialEq for FeelDate {
 impl PartialOrd for FeelDate {
   ///
   fn partial_cmp(&self, other: &Self) -> Option<Ordering> {
-    if self == other {
-      return Some(Ordering::Equal);
-    }
-    if let Some(before) = self.before(other) {
-      if before {
-        return Some(Ordering::Less);
-      }
-    }
-    if let Some(after) = self.after(other) {
-      if after {
-        return Some(Ordering::Greater);
-      }
-    }
-    None
+    // dates are ordered by year, month and day, this is valid for all representable years
+    Some((self.0, self.1, self.2).cmp(&(other.0, other.1, other.2)))
   }
 }
 
@@ -158,39 +146,29 @@ impl FeelDate {
   }
   ///
   pub fn equal(&self, other: &Self) -> Option<bool> {
-    let midnight = FeelTime::utc(0, 0, 0, 0);
-    equal(&FeelDateTime(self.clone(), midnight.clone()), &FeelDateTime(other.clone(), midnight))
+    Some(self == other)
   }
   ///
   pub fn before(&self, other: &Self) -> Option<bool> {
-    let midnight = FeelTime::utc(0, 0, 0, 0);
-    before(&FeelDateTime(self.clone(), midnight.clone()), &FeelDateTime(other.clone(), midnight))
+    Some(self < other)
   }
   ///
   pub fn before_or_equal(&self, other: &Self) -> Option<bool> {
-    let midnight = FeelTime::utc(0, 0, 0, 0);
-    before_or_equal(&FeelDateTime(self.clone(), midnight.clone()), &FeelDateTime(other.clone(), midnight))
+    Some(self <= other)
   }
   ///
   pub fn after(&self, other: &Self) -> Option<bool> {
-    let midnight = FeelTime::utc(0, 0, 0, 0);
-    after(&FeelDateTime(self.clone(), midnight.clone()), &FeelDateTime(other.clone(), midnight))
+    Some(self > other)
   }
   ///
   pub fn after_or_equal(&self, other: &Self) -> Option<bool> {
-    let midnight = FeelTime::utc(0, 0, 0, 0);
-    after_or_equal(&FeelDateTime(self.clone(), midnight.clone()), &FeelDateTime(other.clone(), midnight))
+    Some(self >= other)
   }
   ///
   pub fn between(&self, left: &Self, right: &Self, left_closed: bool, right_closed: bool) -> Option<bool> {
-    let midnight = FeelTime::utc(0, 0, 0, 0);
-    between(
-      &FeelDateTime(self.clone(), midnight.clone()),
-      &FeelDateTime(left.clone(), midnight.clone()),
-      &FeelDateTime(right.clone(), midnight),
-      left_closed,
-      right_closed,
-    )
+    let left_ok = if left_closed { self >= left } else { self > left };
+    let right_ok = if right_closed { self <= right } else { self < right };
+    Some(left_ok && right_ok)
   }
   ///
   pub fn ym_duration(&self, other: &FeelDate) -> FeelYearsAndMonthsDuration {
